@@ -102,7 +102,9 @@ pub fn run(out: &mut Out, seed: u64, tier: &str) {
     for (kind, na) in KINDS.iter() {
         for case in 0..per_kind {
             let params = rand_params(kind, &mut rng);
-            let x = rand_positions(*na, &mut rng);
+            let mut x = rand_positions(*na, &mut rng);
+            // pair terms are also probed at long range (cut-offs and tails live there)
+            if *na == 2 && case % 6 == 5 { let d = rng.range(8.0, 40.0); x[1].x = x[0].x + d * 0.6; x[1].y = x[0].y - d * 0.64; x[1].z = x[0].z + d * 0.48; }
             let desc = TermDesc { kind, idxs: (0..*na).collect(), params: params.clone() };
             let term = make_term(&desc);
             let e = term.energy(&x);
